@@ -49,6 +49,12 @@ type Group struct {
 	Name string // "" = numbered only
 	Ty   Ty     // type the reference infers from the group's text
 	Re   string // the group's regex body, e.g. `\d+`
+	// Rich groups (Config.RichGroups; captype.go / capgroups.go): Ty is DECIDED
+	// by SpecCapTypes from the parsed pattern.
+	Nested bool     // lies inside another capture group (no value of its own in a fragment)
+	Vals   []string // values the group matches as a whole (nil = the legacy pools of lines.go)
+	Bad    []string // those among Vals on which the reference's conversion fails
+	Spec   *CapSpec // the reference's judgement (nil = legacy group)
 }
 
 // PatPart is one operand of a pattern concatenation: a const name or a literal.
